@@ -158,7 +158,9 @@ func (r *ColumnAlignmentRule) checkColumnAlignment(indents []int, lines []int, _
 	var expectedIndent int
 	maxCount := 0
 	for indent, count := range indentCounts {
-		if count > maxCount {
+		// On a tie take the smaller indentation: map iteration order is random, and
+		// without a tie-break the same text was flagged differently from run to run
+		if count > maxCount || (count == maxCount && indent < expectedIndent) {
 			maxCount = count
 			expectedIndent = indent
 		}
